@@ -75,6 +75,22 @@ def pick_rows(rng, n, weights=None):
     return out
 
 
+def maybe_pair(rng, rows, prob=0.15):
+    """Sometimes put both members of a same-reactants / different-products pair into the workload."""
+    if rng.random() >= prob:
+        return rows
+    bt = corpus()["by_tag"]
+    keys = sorted(k for k in bt if k.startswith("pair:"))
+    if not keys:
+        return rows
+    a, b = bt[rng.choice(keys)][:2]
+    if rng.random() < 0.5:
+        a, b = b, a
+    rows.insert(rng.randint(0, len(rows)), a)
+    rows.insert(rng.randint(0, len(rows)), b)
+    return rows
+
+
 def gen_config(rng, n_rows, thresholds=(0,)):
     bs = rng.choice([None, None, 1, 2, 3, n_rows, n_rows + 1, rng.randint(1, max(n_rows, 1))])
     return {
